@@ -94,3 +94,34 @@ Proof.
   split; [apply default_axis_nodes_on_bdry; assumption|].
   split; [apply default_axis_fracs; assumption | apply fromgrid_default; assumption].
 Qed.
+
+(* ---------- boundary_cell_fractions on any valid axis with >= 2 points ---------- *)
+Lemma bdry_fracs_spec (ax : Raxis) : valid ax -> (2 <= length (a_cs ax))%nat ->
+  let n := length (a_cs ax) in
+  let l := fst (bdry_fracs ax) in let r := snd (bdry_fracs ax) in
+  l * (nthR 1 (a_cs ax) - nthR 0 (a_cs ax)) = nthR 1 (bdry_vec ax) - nthR 0 (bdry_vec ax) /\
+  r * (nthR (n - 1) (a_cs ax) - nthR (n - 2) (a_cs ax)) = nthR n (bdry_vec ax) - nthR (n - 1) (bdry_vec ax) /\
+  1 / 2 <= l /\ 1 / 2 <= r /\
+  (l = 1 / 2 <-> nthR 0 (a_cs ax) = a_lo ax) /\ (r = 1 / 2 <-> nthR (n - 1) (a_cs ax) = a_hi ax).
+Proof.
+  intros Hv Hn. cbv zeta. rewrite bdry_fracs_two by exact Hn. cbn [fst snd].
+  rewrite last_gap_eq by exact Hn.
+  destruct (gaps_pos (a_cs ax) (v_incr ax Hv) Hn) as (H1 & H2 & H3 & H4).
+  pose proof (v_lo ax Hv) as Hlo. pose proof (v_hi ax Hv) as Hhi.
+  rewrite bdry_nth_0, bdry_nth_last by lia. rewrite !bdry_nth_mid by lia.
+  replace (length (a_cs ax) - 1 - 1)%nat with (length (a_cs ax) - 2)%nat by lia. cbn [Nat.sub].
+  set (c0 := nthR 0 (a_cs ax)) in *. set (c1 := nthR 1 (a_cs ax)) in *.
+  set (cl := nthR (length (a_cs ax) - 1) (a_cs ax)) in *. set (cp := nthR (length (a_cs ax) - 2) (a_cs ax)) in *.
+  assert (Hd0 : 0 < / (c1 - c0)) by (apply Rinv_0_lt_compat; lra).
+  assert (Hd1 : 0 < / (cl - cp)) by (apply Rinv_0_lt_compat; lra).
+  split; [field; lra|]. split; [field; lra|].
+  assert (Ha : 0 <= (c0 - a_lo ax) / (c1 - c0)) by (apply Rmult_le_pos; lra).
+  assert (Hb : 0 <= (a_hi ax - cl) / (cl - cp)) by (apply Rmult_le_pos; lra).
+  split; [lra|]. split; [lra|]. split; split; intros Hq.
+  - assert (Hz : (c0 - a_lo ax) / (c1 - c0) = 0) by lra.
+    unfold Rdiv in Hz. apply Rmult_integral in Hz. destruct Hz; lra.
+  - rewrite Hq. unfold Rdiv. rewrite Rminus_diag_eq by reflexivity. lra.
+  - assert (Hz : (a_hi ax - cl) / (cl - cp) = 0) by lra.
+    unfold Rdiv in Hz. apply Rmult_integral in Hz. destruct Hz; lra.
+  - rewrite Hq. unfold Rdiv. rewrite Rminus_diag_eq by reflexivity. lra.
+Qed.
